@@ -1,6 +1,6 @@
 #!/bin/sh
 # tools/seed_process.sh <seedname> <property> <worktree-id> [tier]: confirm the change, run the property's check against it, store everything under seeded/<seedname>/
-S=$1; P=$2; W=/tmp/wt_$3; TIER=${4:-quick}
+S=$1; P=$2; W=${SEED_WT:-/tmp/wt_$3}; TIER=${4:-quick}
 D=/verif/seeded/$S; mkdir -p $D
 /verif/tools/seed_confirm.sh $3 > $D/confirm.log 2>&1
 cp $W/_seed/patch.diff $W/_seed/demo.cpp $W/_seed/build_and_run.sh $W/_seed/README.md $D/ 2>/dev/null
